@@ -6,7 +6,7 @@ from vfcore import VERIF, REPO
 META = {
     "engine": "conc", "level": "exploration", "design_ref": "DESIGN.md §4.5 C30",
     "technique": "real ProcessManager::execute on scripted children with a hook-injected delay between the running-state test and waitpid (both orders of SIGCHLD handler vs waitpid observed and counted); concurrent managers in threads incl. a TSan build",
-    "text": "Children that exit 0, exit non-zero or die from a signal after a chosen delay are run through the real ProcessManager::execute while the verification hook delays the waiting thread so that the SIGCHLD handler reaps the child first (and the reverse order); the monitor compares execute()'s outcome (return / 'exited abnormally with value N' / 'exited du to a signal') with what the child really did, and counts how often each order was observed. 2..16 managers in threads reproduce tfel-check's usage. Held on executed schedules only.",
+    "text": "Children that exit 0, exit non-zero or die from a signal after a chosen delay are run through the real ProcessManager::execute while the verification hook delays the waiting thread so that the SIGCHLD handler reaps the child first (and the reverse order); the monitor compares execute()'s outcome (return / 'exited abnormally with value N' / 'exited du to a signal') with what the child really did, and counts how often each order was observed. The same is repeated in one thread with idle managers alive next to the executing one (created before and/or after it: every manager's SIGCHLD callback runs on every SIGCHLD). 2..16 managers in threads reproduce tfel-check's usage. Held on executed schedules only.",
     "note": "Trusted: the helper child really exits as scripted (plain C, checked by the kernel status in a direct fork/wait self-test at start-up); the hook counts SIGCHLD handler entries with atomics only.",
 }
 
@@ -43,6 +43,12 @@ def run(ctx):
                           require=[("execute", "exit-nonzero/sigchld-before-waitpid", 20), ("execute", "exit-nonzero/waitpid-first", 20),
                                    ("execute", "signal-death/sigchld-before-waitpid", 10), ("execute", "signal-death/waitpid-first", 10),
                                    ("execute", "exit-zero/sigchld-before-waitpid", 10)])
+    # (a') single thread, idle managers alive next to the one that executes (each registers its own SIGCHLD callback)
+    ctx.run_events(b["plain"], ctx.n(320, 30000), shards=8, extra=["--child", b["child"], "--mode", "idle"], env=env, timeout=1200,
+                   require=[("execute-with-idle-managers", "exit-zero/sigchld-before-waitpid/idle-manager-created-first", 5),
+                            ("execute-with-idle-managers", "exit-nonzero/sigchld-before-waitpid/idle-manager-created-first", 10),
+                            ("execute-with-idle-managers", "exit-nonzero/waitpid-first/idle-manager-created-first", 5),
+                            ("execute-with-idle-managers", "signal-death/sigchld-before-waitpid/idle-manager-created-first", 5)])
     # (b) concurrent managers
     tot = {}
     for nth in ((2, 4, 8, 16) if ctx.thorough else (2, 4, 8)):
